@@ -617,8 +617,14 @@ func builtinRandomInt(i *Interpreter, args []Expr, env *Environment) (interface{
 	if minVal > maxVal {
 		return nil, fmt.Errorf("randomInt() requires min <= max, got min=%d, max=%d", minVal, maxVal)
 	}
+	// The width max-min+1 overflows int64 for very wide ranges (e.g. the whole
+	// int64 range); rand.Int63n panics on a non-positive argument.
+	width := maxVal - minVal + 1
+	if width <= 0 {
+		return nil, fmt.Errorf("randomInt() range is too wide: min=%d, max=%d", minVal, maxVal)
+	}
 	// #nosec G404 -- non-cryptographic PRNG intentional for general-purpose scripting use
-	return minVal + rand.Int63n(maxVal-minVal+1), nil
+	return minVal + rand.Int63n(width), nil
 }
 
 func builtinGenerateId(_ *Interpreter, args []Expr, _ *Environment) (interface{}, error) {
